@@ -44,5 +44,23 @@ func TestVerifReplaySyncConfig(t *testing.T) {
 			}
 		}
 	}
+	// the sync buffer is the size of a channel (datastore.New): whatever the request says, an accepted configuration
+	// holds a size a channel can be made with
+	for _, buf := range []int64{-1, 0, 1, 1000, 1 << 40, 1<<63 - 1} {
+		for _, withConfig := range []bool{false, true} {
+			n++
+			sy := &Sync{Buffer: buf}
+			if withConfig {
+				sy.Config = []*SyncProtocol{{Name: "sync1", Protocol: "gnmi", Paths: []string{"/"}, Mode: "on-change"}}
+			}
+			ds := &DatastoreConfig{Name: "dev1", Schema: &SchemaConfig{Name: "s", Vendor: "v", Version: "1"},
+				SBI: &SBI{Type: "gnmi", Address: "127.0.0.1", Port: 57400, GnmiOptions: &SBIGnmiOptions{Encoding: "JSON_IETF"}}, Sync: sy}
+			in := fmt.Sprintf("sync buffer=%d,sync entries=%v", buf, withConfig)
+			err := ds.ValidateSetDefaults()
+			if err == nil && (ds.Sync.Buffer < 0 || ds.Sync.Buffer > 1<<24) {
+				fmt.Printf("REPLAY-FAIL fn=%s clause=panic input=%s why=the configuration is accepted with the buffer size %d: making the sync channel of that size panics\n", fn, in, ds.Sync.Buffer)
+			}
+		}
+	}
 	fmt.Printf("REPLAY-CASES fn=%s n=%d\n", fn, n)
 }
